@@ -113,3 +113,90 @@ RULES = [
     ("C08.LISTING", "`check` listing prints kind, counts and area", rule_listing),
     ("C08.TREE", "the parser rebuilds the area tree a renderer wrote: per-handler decision tables of the tree construction (shared with C04)", p_c04.rule_tree),
 ]
+
+
+def rule_render(ctx, R):
+    """the two renderings of an area tree as decision tables over the node kind: which characters are written, in
+    which order, and where the renderer recurses (prefix for Debug, bracketed infix for Display; a leaf prints
+    only its own character)"""
+    from .paths import acyclic_paths, PathOriginsOv, simplify
+    from .interp import normal_cfg
+    from .p_c01 import _calc_eval, _CalcUnknown
+    fb = ctx.fb
+    want = {
+        "hyeong::core::area::area_to_string_debug": {
+            ("Nil", None): ("PUSH(K95)",),
+            ("Val", 0): ("PUSH(TBL)", "REC(left)", "REC(right)"), ("Val", 1): ("PUSH(TBL)", "REC(left)", "REC(right)"),
+            ("Val", 2): ("PUSH(TBL)",), ("Val", 13): ("PUSH(TBL)",),
+        },
+        "hyeong::core::area::area_to_string_display": {
+            ("Nil", None): ("PUSH(K95)",),
+            ("Val", 0): ("PUSH(K91)", "REC(left)", "PUSH(K93)", "PUSH(TBL)", "PUSH(K91)", "REC(right)", "PUSH(K93)"),
+            ("Val", 1): ("PUSH(K91)", "REC(left)", "PUSH(K93)", "PUSH(TBL)", "PUSH(K91)", "REC(right)", "PUSH(K93)"),
+            ("Val", 2): ("PUSH(TBL)",), ("Val", 13): ("PUSH(TBL)",),
+        },
+    }
+    for name, table in want.items():
+        b = fb.bodies.get(name)
+        if not R.anchor(b is not None, name, name):
+            continue
+        R.analyse(name)
+        cfg = normal_cfg(b)
+        if not R.anchor(not cfg.back_edges(), name + ":acyclic", "the renderer is a recursive function without loops"):
+            continue
+        paths = acyclic_paths(cfg, 0, cfg.returns, 4000)
+        got, problems = {}, []
+        for (kind, ty), _ in table.items():
+            env = {"kind": kind, "type": ty, "cmp": None, "fb": fb}
+            seqs = set()
+            for p in paths:
+                org = PathOriginsOv(b, fb, p, overrides={2: ("role", "NODE")})
+                roles = Roles(b, fb, param_roles={1: "OUT"}, org=org)
+                ok = True
+                try:
+                    for i, bi in enumerate(p[:-1]):
+                        t = b.blocks[bi]["term"]
+                        if t["k"] != "switch":
+                            continue
+                        v = _calc_eval(simplify(org.of_operand(t["x"], bi, "t")), env)
+                        v = int(v) if isinstance(v, bool) else v
+                        if not isinstance(v, int):
+                            raise _CalcUnknown("branch on %r" % (v,))
+                        taken = None
+                        for a_, bb in t["arms"]:
+                            if int(a_) == v:
+                                taken = bb
+                        if taken is None:
+                            taken = t["otherwise"]
+                        if taken != p[i + 1]:
+                            ok = False
+                            break
+                    if not ok:
+                        continue
+                    seq = []
+                    for bi in p:
+                        t = b.blocks[bi]["term"]
+                        if t["k"] != "call":
+                            continue
+                        n = callee_name(t["f"], fb)
+                        if n == "std::string::String::push":
+                            r = roles.of_operand(t["args"][1], bi)
+                            seq.append("PUSH(TBL)" if ("CHARS(" in r or "Index" in r or "[" in r) and "type_" in r else "PUSH(%s)" % r)
+                        elif n == name:
+                            r = roles.of_operand(t["args"][1], bi)
+                            seq.append("REC(left)" if ".left" in r else "REC(right)" if ".right" in r else "REC(%s)" % r)
+                        elif n.rsplit("::", 1)[-1] in ("push_str", "insert", "insert_str", "extend", "write_fmt", "write_str"):
+                            seq.append("OTHER(%s)" % n.rsplit("::", 1)[-1])
+                    seqs.add(tuple(seq))
+                except _CalcUnknown as e:
+                    problems.append("%s/%s: %s" % (kind, ty, e))
+            got[(kind, ty)] = seqs
+        bad = {str(k): sorted(v) for k, v in got.items() if v != {table[k]}}
+        short = name.rsplit("::", 1)[-1]
+        R.check(not bad and not problems, "render:" + short, "%s: `_` for an empty slot; an operator (type 0/1) writes its character and both operands (%s); a heart writes only its own character" % (short, "prefix" if "debug" in short else "[left]op[right]"), b.span, {"differs": bad, "undecided": problems[:4]})
+
+
+RULES.append(("C08.RENDER", "the two renderings of area trees: decision tables of the characters written and the recursion per node kind", rule_render))
+
+
+RULES.append(("C08.LISTTOTAL", "`hyeong check` lists any parse result without crashing: panic audit below check::run (shared with C04.LISTING)", p_c04.rule_listing_total))
